@@ -956,7 +956,7 @@ def delete_unreachable_code(source: str) -> str:
         except ValueError:
             continue
 
-        if isinstance(node, ast.While) and not test_value:
+        if isinstance(node, ast.While) and not test_value and not node.orelse:
             yield node, None, transaction
             continue
 
@@ -1947,7 +1947,8 @@ def remove_dead_ifs(source: str) -> str:
         except ValueError:
             continue
 
-        if isinstance(node, ast.While) and not value:
+        if isinstance(node, ast.While) and not value and not node.orelse:
+            # The else clause of a loop that never runs is always executed
             yield node, None
 
         if isinstance(node, ast.IfExp):
